@@ -105,6 +105,7 @@ type Group struct {
 	name string
 
 	mu          sync.Mutex
+	deleted     bool
 	description *Description
 	locked      *string
 	clients     map[string]Client
@@ -599,6 +600,7 @@ func deleteUnlocked(g *Group) bool {
 	}
 
 	delete(groups.groups, g.name)
+	g.deleted = true
 	return true
 }
 
@@ -609,6 +611,15 @@ func AddClient(group string, c Client, creds ClientCredentials) (*Group, error) 
 	}
 
 	g.mu.Lock()
+	for g.deleted {
+		// the group has expired since we looked it up, try again
+		g.mu.Unlock()
+		g, err = Add(group, nil)
+		if err != nil {
+			return nil, err
+		}
+		g.mu.Lock()
+	}
 	defer g.mu.Unlock()
 
 	clients := g.getClientsUnlocked(nil)
